@@ -427,8 +427,14 @@ func MapKeys[K ordered, V any](site string, m map[K]V) []K {
 	for k := range m {
 		keys = append(keys, k)
 	}
+	selected := seam != nil && (seam.sites == nil || seam.sites[site])
+	if !selected && current == nil {
+		// neither an order seam for this site nor a scheduler: Go's own order (the loop is then
+		// outside the explored nondeterminism, e.g. a commutative counting loop at corpus scale)
+		return keys
+	}
 	sort.Slice(keys, func(i, j int) bool { return keys[i] < keys[j] })
-	if seam != nil && len(keys) > 1 && (seam.sites == nil || seam.sites[site]) {
+	if selected && len(keys) > 1 {
 		seam.Used[site]++
 		k := seam.run.Deviate(orderAlternatives(len(keys)), "map-order "+site)
 		permute(keys, k)
